@@ -467,6 +467,15 @@ impl_tuple!(
 	(A 0, B 1, C 2, D 3, E 4, F 5, G 6, H 7, I 8, J 9, K 10, L 11, M 12, N 13, O 14, P 15, Q 16, R 17)
 );
 
+/// A decoder that skips the UTF-8 check hands out a `String` that is not one; the harness must survive
+/// looking at it (formatting such a string panics) and still see that it differs from every valid value.
+pub fn sane_str(s: &str) -> String {
+	match std::str::from_utf8(s.as_bytes()) {
+		Ok(_) => s.to_string(),
+		Err(_) => format!("<invalid UTF-8: {}>", s.as_bytes().iter().map(|b| format!("{:02x}", b)).collect::<String>()),
+	}
+}
+
 impl Subject for String {
 	fn shape() -> Shape {
 		Shape::Str
@@ -478,7 +487,7 @@ impl Subject for String {
 		}
 	}
 	fn to_value(&self) -> Value {
-		Value::Str(self.clone())
+		Value::Str(sane_str(self))
 	}
 	fn heap_payload(&self) -> (usize, usize) {
 		(self.len(), 0)
@@ -543,7 +552,7 @@ impl Subject for Cow<'static, str> {
 		Cow::Owned(String::from_value(v))
 	}
 	fn to_value(&self) -> Value {
-		Value::Str(self.to_string())
+		Value::Str(sane_str(self))
 	}
 	fn heap_payload(&self) -> (usize, usize) {
 		(self.len(), 0)
